@@ -17,6 +17,7 @@ import (
 	"strconv"
 	"strings"
 	"sync"
+	"time"
 
 	grpcm "goa.design/goa/v3/grpc/middleware"
 	httpm "goa.design/goa/v3/http/middleware"
@@ -42,8 +43,9 @@ type realNet struct {
 	doer     httpm.Doer       // goa's traced doer around the real client
 	cancel   context.CancelFunc
 
-	mu   sync.Mutex
-	runs map[string]*chainResult
+	mu    sync.Mutex
+	runs  map[string]*chainResult
+	cases map[string]chainCase
 }
 
 type chainAPI interface{}
@@ -59,7 +61,7 @@ func parseRoute(s string) (id string, hop int, rest string, err error) {
 }
 
 func newRealNet(sampling int) (*realNet, error) {
-	n := &realNet{sampling: sampling, runs: map[string]*chainResult{}}
+	n := &realNet{sampling: sampling, runs: map[string]*chainResult{}, cases: map[string]chainCase{}}
 	opts := []middleware.TraceOption{middleware.SamplingPercent(sampling)}
 	ctx, cancel := context.WithCancel(context.Background())
 	n.cancel = cancel
@@ -70,7 +72,7 @@ func newRealNet(sampling int) (*realNet, error) {
 		return httpm.RequestID()(httpm.Log(nopLogger{})(httpm.Trace(opts...)(h)))
 	}
 	mux.Handle("/hop", stack(http.HandlerFunc(func(w http.ResponseWriter, r *http.Request) {
-		n.hop(r.Context(), r.Header.Get(routeHeader), wireFromHeader(r.Header))
+		n.hop(r.Context(), r.Header.Get(routeHeader), wireFromHeader(r.Header), r.Header)
 		_, _ = w.Write([]byte("ok"))
 	})))
 	mux.HandleFunc("/sink", func(w http.ResponseWriter, r *http.Request) {
@@ -119,11 +121,11 @@ func newRealNet(sampling int) (*realNet, error) {
 		ServiceName: "verif.Chain",
 		HandlerType: (*chainAPI)(nil),
 		Methods: []grpc.MethodDesc{
-			unary("Hop", func(ctx context.Context, route string) { n.hop(ctx, route, incoming(ctx)) }),
+			unary("Hop", func(ctx context.Context, route string) { n.hop(ctx, route, incoming(ctx), nil) }),
 			unary("Sink", func(ctx context.Context, route string) { n.sink(route, incoming(ctx)) }),
 		},
 		Streams: []grpc.StreamDesc{
-			stream("HopStream", func(ctx context.Context, route string) { n.hop(ctx, route, incoming(ctx)) }),
+			stream("HopStream", func(ctx context.Context, route string) { n.hop(ctx, route, incoming(ctx), nil) }),
 			stream("SinkStream", func(ctx context.Context, route string) { n.sink(route, incoming(ctx)) }),
 		},
 	}, struct{}{})
@@ -165,7 +167,7 @@ func (n *realNet) sink(route string, w wireObs) {
 
 // hop is the application handler of every real hop: record, then call the next hop with the
 // context received from goa's server middleware.
-func (n *realNet) hop(ctx context.Context, route string, w wireObs) {
+func (n *realNet) hop(ctx context.Context, route string, w wireObs, inHdr http.Header) {
 	id, i, rest, err := parseRoute(route)
 	if err != nil {
 		return
@@ -182,16 +184,24 @@ func (n *realNet) hop(ctx context.Context, route string, w wireObs) {
 	observeTrace(ctx, &h.Ctx)
 	r.Transitions += 2
 	self := h.Kind
+	cs := n.cases[id]
 	n.mu.Unlock()
+	var received [][2]string
+	if i < len(cs.Forward) && cs.Forward[i] { // gateway: pass on everything received
+		received = receivedPairs(ctx, inHdr)
+	}
 	if rest == "" {
-		_ = n.call(ctx, family(self[0]), true, fmt.Sprintf("%s|%d|", id, i+1))
+		_ = n.call(ctx, family(self[0]), true, fmt.Sprintf("%s|%d|", id, i+1), received)
 		return
 	}
-	_ = n.call(ctx, family(rest[0]), false, fmt.Sprintf("%s|%d|%s", id, i+1, rest[1:]))
+	_ = n.call(ctx, family(rest[0]), false, fmt.Sprintf("%s|%d|%s", id, i+1, rest[1:]), received)
 }
 
 // call performs one real client call with goa's traced client of the given transport.
-func (n *realNet) call(ctx context.Context, fam string, sink bool, route string) error {
+func (n *realNet) call(ctx context.Context, fam string, sink bool, route string, received [][2]string) error {
+	if received != nil && fam != "http" {
+		ctx = forwardToOutgoing(ctx, received)
+	}
 	switch fam {
 	case "http":
 		path := "/hop"
@@ -201,6 +211,9 @@ func (n *realNet) call(ctx context.Context, fam string, sink bool, route string)
 		req, err := http.NewRequestWithContext(ctx, "GET", n.httpSrv.URL+path, nil)
 		if err != nil {
 			return err
+		}
+		for _, kv := range received {
+			req.Header.Add(kv[0], kv[1])
 		}
 		req.Header.Set(routeHeader, route)
 		resp, err := n.doer.Do(req)
@@ -291,6 +304,7 @@ func execChainReal(cs chainCase) chainResult {
 	}
 	n.mu.Lock()
 	n.runs[id] = res
+	n.cases[id] = cs
 	n.mu.Unlock()
 	w := wireFor(cs.Inbound)
 	route := fmt.Sprintf("%s|0|%s", id, cs.Kinds[1:])
@@ -313,12 +327,13 @@ func execChainReal(cs chainCase) chainResult {
 			ctx = metadata.NewOutgoingContext(ctx, md)
 		}
 		// the context carries no trace values: goa's client interceptors leave the metadata alone
-		if err := n.call(ctx, family(cs.Kinds[0]), false, route); err != nil {
+		if err := n.call(ctx, family(cs.Kinds[0]), false, route, nil); err != nil {
 			realErr = err
 		}
 	}
 	n.mu.Lock()
 	delete(n.runs, id)
+	delete(n.cases, id)
 	out := *res
 	n.mu.Unlock()
 	return out
@@ -327,58 +342,125 @@ func execChainReal(cs chainCase) chainResult {
 // ---- capture over a real server -----------------------------------------------------------
 
 var (
-	capOnce sync.Once
-	capSrv  *httptest.Server
 	capMu   sync.Mutex
+	capSrv  *httptest.Server
+	capLog  = &recLogger{notify: make(chan struct{}, 64)}
+	capDone = make(chan struct{}, 64)
 	capSeen = map[string]captureObs{}
 )
 
-func execCaptureReal(cs captureCase) (captureObs, error) {
-	capOnce.Do(func() {
-		capSrv = httptest.NewUnstartedServer(http.HandlerFunc(func(w http.ResponseWriter, r *http.Request) {
-			ops := strings.Split(r.Header.Get("X-Verif-Ops"), ",")
-			rc := httpm.CaptureResponse(w)
-			applyOps(rc, ops)
-			capMu.Lock()
-			capSeen[r.Header.Get("X-Verif-Ops")] = captureObs{Reported: true, Status: rc.StatusCode, Bytes: rc.ContentLength}
-			capMu.Unlock()
-		}))
-		capSrv.Config.ErrorLog = log.New(io.Discard, "", 0) // "superfluous WriteHeader" lines are expected
-		capSrv.Start()
+// await takes n tokens from ch; the timeout is a harness watchdog, not an oracle.
+func await(ch chan struct{}, n int, what string) error {
+	for i := 0; i < n; i++ {
+		select {
+		case <-ch:
+		case <-time.After(30 * time.Second):
+			return fmt.Errorf("timed out waiting for %s", what)
+		}
+	}
+	return nil
+}
+
+func captureServer() *httptest.Server {
+	capMu.Lock()
+	defer capMu.Unlock()
+	if capSrv != nil {
+		return capSrv
+	}
+	mux := http.NewServeMux()
+	// /capture: the handler wraps its writer itself
+	mux.HandleFunc("/capture", func(w http.ResponseWriter, r *http.Request) {
+		key := r.Header.Get("X-Verif-Ops")
+		rc := httpm.CaptureResponse(w)
+		applyOps(rc, strings.Split(key, ","))
+		capMu.Lock()
+		capSeen[key] = captureObs{Reported: true, Status: rc.StatusCode, Bytes: rc.ContentLength}
+		capMu.Unlock()
+		capDone <- struct{}{}
 	})
+	// /log: the Log middleware wraps the writer and reports the capture's fields
+	mux.Handle("/log", httpm.Log(capLog)(http.HandlerFunc(func(w http.ResponseWriter, r *http.Request) {
+		applyOps(w, strings.Split(r.Header.Get("X-Verif-Ops"), ","))
+	})))
+	capSrv = httptest.NewUnstartedServer(mux)
+	capSrv.Config.ErrorLog = log.New(io.Discard, "", 0) // "superfluous WriteHeader" lines are expected
+	capSrv.Start()
+	return capSrv
+}
+
+func closeCaptureServer() {
+	capMu.Lock()
+	defer capMu.Unlock()
+	if capSrv != nil {
+		capSrv.Close()
+		capSrv = nil
+	}
+}
+
+// execCaptureReal performs one real round trip (requests are issued one at a time).
+func execCaptureReal(cs captureCase) (captureObs, error) {
+	srv := captureServer()
 	key := strings.Join(cs.Ops, ",")
-	req, _ := http.NewRequest("GET", capSrv.URL+"/capture", nil)
+	path := "/capture"
+	if cs.Via == "server-log" {
+		path = "/log"
+		capLog.reset()
+	}
+	req, _ := http.NewRequest("GET", srv.URL+path, nil)
 	req.Header.Set("X-Verif-Ops", key)
-	resp, err := capSrv.Client().Do(req)
+	// a fresh connection per case: after a 101 the connection is not reusable
+	tr := &http.Transport{DisableKeepAlives: true}
+	defer tr.CloseIdleConnections()
+	resp, err := (&http.Client{Transport: tr}).Do(req)
 	if err != nil {
 		return captureObs{}, err
 	}
-	body, err := io.ReadAll(resp.Body)
+	var body []byte
+	if resp.StatusCode != http.StatusSwitchingProtocols {
+		body, err = io.ReadAll(resp.Body)
+	}
 	_ = resp.Body.Close()
 	if err != nil {
 		return captureObs{}, err
 	}
-	capMu.Lock()
-	o, ok := capSeen[key]
-	delete(capSeen, key)
-	capMu.Unlock()
-	if !ok {
-		return o, fmt.Errorf("real server handler did not run for %s", key)
+	var o captureObs
+	if cs.Via == "server-log" {
+		// request line + response line; the latter is logged after the handler returned, possibly
+		// after the client got the whole response
+		if err := await(capLog.notify, 2, "the Log middleware's two lines for "+key); err != nil {
+			return o, err
+		}
+		st, ok1 := capLog.last("status")
+		by, ok2 := capLog.last("bytes")
+		si, ok3 := st.(int)
+		bi, ok4 := by.(int)
+		if !(ok1 && ok2 && ok3 && ok4) {
+			return o, fmt.Errorf("Log middleware did not log integer status/bytes for %s", key)
+		}
+		o = captureObs{Reported: true, Status: si, Bytes: bi}
+	} else {
+		if err := await(capDone, 1, "the handler for "+key); err != nil {
+			return o, err
+		}
+		capMu.Lock()
+		seen, ok := capSeen[key]
+		delete(capSeen, key)
+		capMu.Unlock()
+		if !ok {
+			return o, fmt.Errorf("real server handler left no observation for %s", key)
+		}
+		o = seen
 	}
-	first, _ := committedBy(cs.Ops)
-	o.Committed = first != "nothing" // net/http sends 200 by itself afterwards: not "written by the handler", not asserted
+	first, _, _ := committedBy(cs.Ops)
+	o.Committed = first != "nothing" // otherwise net/http sends 200 by itself afterwards: not written by the handler, not asserted
 	o.WroteStatus = resp.StatusCode
 	o.WroteBytes = len(body)
+	o.BytesUnknown = resp.StatusCode == http.StatusSwitchingProtocols
 	return o, nil
 }
 
 func runReal(c *core.Ctx) {
 	defer closeRealNets()
-	defer func() {
-		if capSrv != nil {
-			capSrv.Close()
-		}
-	}()
 	kinds := "hUS" // h = HTTP hop (RequestID -> Log -> Trace), U = gRPC unary, S = gRPC stream
 	var cases int64
 	for depth := 1; depth <= 4; depth++ {
@@ -393,22 +475,24 @@ func runReal(c *core.Ctx) {
 					sampling[i] = p
 				}
 				for _, in := range []string{"none", "trace", "trace+parent"} {
-					cs := chainCase{Kinds: string(ks), Sampling: sampling, Inbound: in, IDFuncs: "default", Real: true}
-					fails, outcome, state, n := checkChain(cs)
-					if realErr != nil {
-						c.HarnessError("real chain %s: %v", ks, realErr)
-						return false
-					}
-					c.State(fmt.Sprintf("real-chain:%s:%d:%s:%s", ks, p, in, state), depth >= 2)
-					c.Exec(int64(n))
-					noteOutcome(c, "real "+outcome)
-					cases++
-					if cases%211 == 0 {
-						c.Sample(replayCase{Part: "chain", Chain: &cs})
-					}
-					if len(fails) > 0 {
-						cc := cs
-						report(c, fails, replayCase{Part: "chain", Chain: &cc}, func() []failure { f, _, _, _ := checkChain(cc); return f })
+					for _, fw := range forwardVectors(depth, false) {
+						cs := chainCase{Kinds: string(ks), Sampling: sampling, Inbound: in, IDFuncs: "default", Forward: fw, Real: true}
+						fails, outcome, state, n := checkChain(cs)
+						if realErr != nil {
+							c.HarnessError("real chain %s: %v", ks, realErr)
+							return false
+						}
+						c.State(fmt.Sprintf("real-chain:%s:%d:%s:%v:%s", ks, p, in, fw[0], state), depth >= 2)
+						c.Exec(int64(n))
+						noteOutcome(c, "real "+outcome)
+						cases++
+						if cases%211 == 0 {
+							c.Sample(replayCase{Part: "chain", Chain: &cs})
+						}
+						if len(fails) > 0 {
+							cc := cs
+							report(c, fails, replayCase{Part: "chain", Chain: &cc}, func() []failure { f, _, _, _ := checkChain(cc); return f })
+						}
 					}
 				}
 			}
@@ -416,9 +500,7 @@ func runReal(c *core.Ctx) {
 		})
 	}
 	c.Note("real_chain_cases", cases)
-	c.Note("real_chain_bounds", "real httptest.Server + real grpc.Server on bufconn: every kind sequence over {HTTP, gRPC unary, gRPC stream} of depth 1..4 x uniform sampling {100,0} x inbound {none, trace, trace+parent}")
-	n := runCaptureVia(c, "server", 3)
-	c.Note("real_capture_cases", n)
+	c.Note("real_chain_bounds", "real httptest.Server + real grpc.Server on bufconn: every kind sequence over {HTTP, gRPC unary, gRPC stream} of depth 1..4 x uniform sampling {100,0} x inbound {none, trace, trace+parent} x {no hop, every hop} forwards what it received (gateway)")
 	if c.Expired() {
 		c.Incomplete("real servers: deadline reached")
 	}
